@@ -13,7 +13,7 @@ EXPLANATION = (
     "connection lost -> connection-level, the rest -> Unknown/Undefined); (e) BidiStream's trait impls are pure "
     "forwarders to its halves. Byte delivery over real Quinn under flow control is not decided."
     " C17-d also restricts who may construct StreamErrorIncoming / ConnectionErrorIncoming / SendDatagramErrorIncoming in the adapter to the conversion tables and a short audited list, so that no Quinn error reaches h3 unclassified.")
-RULES = "C17-a overlapping write refused (A2); C17-b advance by what Quinn accepted, buffer kept across Pending (A4/A8); C17-c identifiers never panic (A9/A14); C17-d error tables, who may build a transport error, success never answered after a Quinn error (A3/A10); C17-e forwarders (A13); shared through a proxy: C14-e under C17-b; C17-c also: receive stream put back on every exit after the read completed"
+RULES = "C17-b also: poll_send writes only while no framed write is pending; C17-a overlapping write refused (A2); C17-b advance by what Quinn accepted, buffer kept across Pending (A4/A8); C17-c identifiers never panic (A9/A14); C17-d error tables, who may build a transport error, success never answered after a Quinn error (A3/A10); C17-e forwarders (A13); shared through a proxy: C14-e under C17-b; C17-c also: receive stream put back on every exit after the read completed"
 
 Q = "h3_quinn::"
 SS = "<h3_quinn::SendStream as h3::quic::SendStream<B>>::"
